@@ -100,6 +100,14 @@ func makePattern(i int, rng *rand.Rand, mix [3]int, optP int) *patCase {
 	}
 }
 
+// noteCtx records the pattern a worker is busy with, so that a panic inside the
+// case is reported with it.
+func noteCtx(l *core.Local, pc *patCase) {
+	if pc != nil {
+		l.Ctx = fmt.Sprintf("pattern=%q options=%#x origin=%s", pc.src, pc.opts, pc.origin)
+	}
+}
+
 // inputsFor builds the inputs of a pattern: bounded-exhaustive strings over a
 // small pattern-derived alphabet plus pattern-directed and decorated strings.
 func inputsFor(pc *patCase, rng *rand.Rand, exhLen, nDirected int) [][]rune {
